@@ -163,7 +163,11 @@ pub fn dash_path(path: &Path, dash_array: &[f32], mut dash_offset: f32) -> Path 
 
                     if state.on {
                         if first_dash {
-                            // If we're still on the first dash we can just close
+                            // If we're still on the first dash we can just close,
+                            // after emitting the part of it that was held back
+                            for pt in initial_segment {
+                                dashed.line_to(pt.x, pt.y);
+                            }
                             dashed.close();
                         } else {
                             if initial_segment.len() > 0 {
